@@ -1,7 +1,6 @@
 package grid
 
 import (
-	"net"
 	"bytes"
 	"context"
 	"encoding/base64"
@@ -9,6 +8,7 @@ import (
 	"errors"
 	"fmt"
 	"io"
+	"net"
 	"net/http"
 	"net/http/httptest"
 	"strconv"
